@@ -166,12 +166,55 @@ def check_ledger(ctx, entries, errors, options, case, li, rng=None):
     conn = beanquery.connect('beancount:', entries=entries, errors=errors, options=options)
     check_tables(ctx, conn, entries, case, li)
     if rng is not None:
+        # first use: a NEW connection whose first scans of every table are left incomplete, then read in full
+        conn2 = beanquery.connect('beancount:', entries=entries, errors=errors, options=options)
+        first_use_workload(ctx, conn2, rng, case)
+        check_tables(ctx, conn2, entries, dict(case, phase='read on a new connection whose first scans of the tables were left incomplete'), (li, 'first-use'))
+        ctx.count('obs.ledgers_read_after_incomplete_first_scans')
+    if rng is not None:
         # history: the same connection after a series of reading statements presents the same tables
         before = ctx.counters['violations_raw']
         read_workload(ctx, conn, rng, case)
         if ctx.counters['violations_raw'] == before:
             check_tables(ctx, conn, entries, dict(case, phase='re-read on the same connection after a series of reading statements'), (li, 'after'))
             ctx.count('obs.ledgers_reread_after_reads')
+
+
+FIRST_USE = {
+    'postings': ('account', 'number'), 'entries': ('type', 'date'), 'transactions': ('flag', 'date'), 'prices': ('currency', 'date'),
+    'balances': ('account', 'date'), 'notes': ('account', 'date'), 'events': ('type', 'date'), 'documents': ('account', 'date'),
+    'accounts': ('account', 'account'), 'commodities': ('name', 'name'),
+}
+
+
+def first_use_workload(ctx, conn, rng, case):
+    """The very first statements a connection executes on a table leave its first scan incomplete: a LIMIT that stops
+    early, a sub-select over the same table evaluated while the enclosing scan is at its first row, a statement that fails
+    part-way through. The tables read afterwards are complete all the same."""
+    beanquery = engine.bq()
+    tables = list(FIRST_USE)
+    rng.shuffle(tables)
+    for t in tables:
+        a, b = FIRST_USE[t]
+        kinds = rng.sample(['limit', 'self-subquery', 'failing', 'iterator'], rng.randint(1, 3))
+        for kind in kinds:
+            try:
+                if kind == 'limit':
+                    conn.execute(f'SELECT {a} FROM #{t} LIMIT 1').fetchall()
+                elif kind == 'self-subquery':
+                    conn.execute(f'SELECT {a}, {b} FROM #{t} WHERE {a} IN (SELECT {a} FROM #{t} WHERE {b} IS NOT NULL)').fetchall()
+                elif kind == 'failing':
+                    # raises at the first row whose value is not a date string
+                    conn.execute(f'SELECT parse_date(str({a}), "%Y") FROM #{t}').fetchall()
+                else:
+                    # the table object scanned directly and abandoned after one row
+                    it = iter(conn.tables[t])
+                    next(it, None)
+                    del it
+                ctx.count(f'obs.first_use.{kind}')
+            except (beanquery.Error, ValueError, TypeError, AttributeError) as exc:
+                ctx.count(f'obs.first_use.{kind}')
+                ctx.seen('first_use_errors', f'{kind}: {type(exc).__name__}')
 
 
 def check_tables(ctx, conn, entries, case, li):
@@ -314,6 +357,8 @@ def finalize(merged):
     for t in ('postings', 'entries', 'transactions', 'prices', 'balances', 'notes', 'events', 'documents', 'accounts', 'commodities'):
         if c.get(f'obs.rows.{t}', 0) == 0:
             reasons.append(f'no row of table {t} compared')
+    if c.get('obs.ledgers_read_after_incomplete_first_scans', 0) == 0 or c.get('obs.first_use.self-subquery', 0) == 0:
+        reasons.append('no ledger read after incomplete first scans')
     if c.get('obs.ledgers_reread_after_reads', 0) == 0 or c.get('obs.read_statements', 0) == 0:
         reasons.append('no ledger was re-read after a series of reading statements')
     nonnull = merged['sets'].get('columns_nonnull', set())
